@@ -13,12 +13,14 @@ PROPS = {
         "parts": [
             {"name": "decode", "pkg": "c12", "chk": "chk_c12_decode"},
             {"name": "enforce", "pkg": "c12", "chk": "chk_c12_enforce", "args": ["enforce"]},
+            {"name": "target", "pkg": "c12", "chk": "chk_c12_target", "args": ["target"]},
             {"name": "forward", "pkg": "c01", "chk": "chk_fwd"},
         ],
         "reasons": {"decode": {"1": "decodeTimeout's result differs from the gRPC timeout grammar (1-8 digits + unit, value = digits*unit)"},
                     "enforce": {"1": "the target observed no deadline, or one later than the client asked for", "2": "the call outlived its deadline by more than the margin (or ended before it)", "3": "a call stopped by its deadline did not end with DeadlineExceeded / 504"},
+                    "target": {"6": "a REAL gRPC target (grpc-go server behind an AdaptedClientConn) observed no deadline, or a later one, although the client sent a grpc-timeout (or observed one without)"},
                     "forward": FWD_REASONS},
-        "rule": "decode: shape sweep (length 0..10 x final byte 0..255 x digit classes x one intruder at every position) + random strings; "
+        "rule": "target: transcoded HTTP calls with grpc-timeout 200 ms..60 s (and without), with and without another (filtered) header, through a real AdaptedClientPool connection to a grpc-go server on bufconn whose handler records the deadline of its stream context; decode: shape sweep (length 0..10 x final byte 0..255 x digit classes x one intruder at every position) + random strings; "
                 "non-trivial = string of length>=2 ending in one of HMSmun; distinct by full case text",
         "level_text": "Coq theorems: the decoder accepts exactly the gRPC timeout grammar and yields digits*unit (saturating at int64); the regenerated unit table equals the spec table. Tied to the code by an exact differential on ~27k strings per run. Enforcement part (deadline wins, never forwarded) proved on the forwarder LTS; wall-clock margin is measured only (partial).",
         "level_note": "Trusted: Coq kernel, extraction (ExtrOcamlBasic), modelrun, the Go harness and export shim, strconv.ParseUint as modelled. The model is hand-written; the tie is the differential run.",
@@ -33,7 +35,8 @@ PROPS["C07"] = {
         "1": "a metadata key reached the target that no allow-list entry produces (after renaming) from a client-supplied key",
         "2": "grpc-timeout was forwarded to the target as metadata",
         "3": "a target header/trailer value reached the client without being allow-listed",
-        "4": "metadata crossed the bridge although the allow-list is empty (default deny)"}},
+        "4": "metadata crossed the bridge although the allow-list is empty (default deny)",
+        "5": "a value reached the target under a -bin key without being decoded (it is not the base64 decoding of anything the client sent)"}},
     "rule": "per entry point (HTTP, WebSocket, gRPC-Web, gRPC-WebSocket, gRPC proxy): random allow-list/prefix configurations (25% default-deny) x header sets over a key pool "
             "(mixed case, multi-valued, -bin with valid/invalid base64, Grpc-Metadata- prefixed, grpc-timeout) x target header/trailer sets; non-trivial = some allow-list non-empty and some header sent",
     "level_text": "Coq theorems over ALL metadata maps and configurations: every outgoing key is a renamed allow-list entry present in the request with exactly its (decoded iff -bin) values; empty allow-lists forward nothing; grpc-timeout is never among the outgoing keys; response/trailer likewise; provenance from client-supplied pairs for each entry point's metadata construction. Tied to the code by running all five real entry points against a recording fake target.",
@@ -141,8 +144,12 @@ PROPS["C01"] = {
 }
 PROPS["C02"] = {
     "parts": [{"name": "forward", "pkg": "c01", "chk": "chk_fwd"},
-              {"name": "proxy_idle", "pkg": "c01", "chk": "chk_fwd_e2e", "args": ["e2e"]}],
-    "reasons": {"forward": FWD_REASONS, "proxy_idle": {"5": "an idle gRPC client did not learn of the target's termination within 1.5 s (the proxied call hangs)", "7": "the idle client saw a status other than the target's"}},
+              {"name": "proxy_idle", "pkg": "c01", "chk": "chk_fwd_e2e", "args": ["e2e"]},
+              {"name": "web_idle", "pkg": "c01", "chk": "chk_c02_web_idle", "args": ["web_idle"]}],
+    "reasons": {"forward": FWD_REASONS,
+                "web_idle": {"5": "a WebSocket handler (transcoded or gRPC-WebSocket) did not return within 1.5 s after its idle client went away or the call's deadline expired while the target was silent",
+                             "7": "an expired deadline on an idle WebSocket call was not reported to the client as DeadlineExceeded"},
+                "proxy_idle": {"5": "an idle gRPC client did not learn of the target's termination within 1.5 s (the proxied call hangs)", "7": "the idle client saw a status other than the target's"}},
     "rule": PROPS["C01"]["rule"] + "; fault scripts: every position of EOF / status / silence on both sides, send and open failures, cancel/deadline fired before the k-th adapter operation (k random) or when both sides are idle; 1.5 s watchdog",
     "level_text": "Coq theorems over all scripts and schedules: (progress) with context-aware adapters, once the context is done or a pump has reported, some thread can always move until the call has returned; (variant) every step strictly decreases a measure, so every run is finite with at most mu(init) adapter-level steps; (cleanup) at return cancel() ran, both pumps have exited and a created stream was closed. Wall-clock promptness and goroutines inside grpc-go/gws are measured by the harness watchdog only (partial).",
     "level_note": "Trusted: as C01. The theorem bounds steps, not seconds; adapters' context-awareness is an explicit hypothesis of the progress theorem (true of all web adapters and AdaptedClientStream).",
